@@ -373,7 +373,7 @@ func evalContractOnFacts(fn *ssa.Function, inputs map[string]*Term, outs []strin
 	f.WriteString(b.String())
 	f.Close()
 	defer os.Remove(f.Name())
-	ans, win, _ := race(f.Name(), 30, false)
+	ans, win, _ := race(f.Name(), factsTimeoutS, false)
 	switch ans[win] {
 	case "sat":
 		return true, "confirmed-on-real-code: the real outputs falsify the contract (ground evaluation: sat)"
@@ -381,4 +381,202 @@ func evalContractOnFacts(fn *ssa.Function, inputs map[string]*Term, outs []strin
 		return false, "not reproduced: the real outputs satisfy the contract on this input (the solver model relied on an uninterpreted function)"
 	}
 	return false, "ground evaluation undecided"
+}
+
+// ---- input search: when no solver produced a model (nonlinear arithmetic, quantifiers), functions
+// within reach of the generic harness are run on boundary and pseudo-random inputs in one test
+// binary, and the contract is evaluated on each real result; the first falsifying input is reported.
+
+var factsTimeoutS = 30
+
+func searchCandidates(w int, signed bool, seed int64) []*big.Int {
+	one := big.NewInt(1)
+	mod := new(big.Int).Lsh(one, uint(w))
+	var out []*big.Int
+	seen := map[string]bool{}
+	add := func(v *big.Int) {
+		u := new(big.Int).Mod(v, mod)
+		if !seen[u.String()] {
+			seen[u.String()] = true
+			out = append(out, u)
+		}
+	}
+	for _, k := range []int64{0, 1, 2, 3, 5, 7, 12, 13, 0xfc, 0xfd, 0xfe, 0xff, 0x100, 0x101, 1000, 2000, 0xffff, 0x10000} {
+		add(big.NewInt(k))
+		add(big.NewInt(-k))
+	}
+	for sh := 1; sh < w; sh += 1 {
+		p := new(big.Int).Lsh(one, uint(sh))
+		add(p)
+		add(new(big.Int).Sub(p, one))
+		add(new(big.Int).Add(p, one))
+	}
+	// compact-bits style values: exponent byte x mantissa
+	if w == 32 {
+		for _, e := range []int64{0, 1, 2, 3, 4, 0x1c, 0x1d, 0x20, 0x21, 0x22, 0xff} {
+			for _, m := range []int64{0, 1, 0xffff, 0x7fffff, 0x800000, 0x800001, 0xffffff} {
+				add(big.NewInt(e<<24 | m))
+			}
+		}
+	}
+	x := uint64(seed)*6364136223846793005 + 1442695040888963407
+	for i := 0; i < 40; i++ {
+		x = x*6364136223846793005 + 1442695040888963407
+		add(new(big.Int).SetUint64(x))
+	}
+	return out
+}
+
+func searchOnRealCode(verif, repo string, r *Result, seed int) (bool, map[string]interface{}) {
+	info := map[string]interface{}{}
+	if rctx == nil || rctx.ld == nil || r.Obl.Kind != "post" {
+		return false, info
+	}
+	fn := rctx.ld.funcs[r.Obl.Func]
+	if fn == nil || fn.Signature.Recv() != nil || len(fn.FreeVars) > 0 || fn.Pkg == nil || len(fn.Params) == 0 || len(fn.Params) > 2 {
+		return false, info
+	}
+	is := &importSet{self: fn.Pkg.Pkg, paths: map[string]string{}}
+	type cand struct {
+		lits []*Term
+		args []string
+	}
+	var per [][]cand // per parameter: candidate values
+	for _, p := range fn.Params {
+		ts := types.TypeString(p.Type(), is.qual)
+		var cs []cand
+		switch kindOf(p.Type()) {
+		case KInt:
+			w, sg := intInfo(p.Type())
+			vals := searchCandidates(w, sg, int64(seed))
+			if len(fn.Params) == 2 && len(vals) > 24 {
+				vals = vals[:24]
+			}
+			for _, v := range vals {
+				lit := mkBV(v, w)
+				if sg {
+					cs = append(cs, cand{[]*Term{lit}, []string{fmt.Sprintf("%s(%s)", ts, lit.signedVal().String())}})
+				} else {
+					cs = append(cs, cand{[]*Term{lit}, []string{fmt.Sprintf("%s(%s)", ts, v.String())}})
+				}
+			}
+		case KBool:
+			cs = []cand{{[]*Term{tFalse}, []string{"false"}}, {[]*Term{tTrue}, []string{"true"}}}
+		default:
+			return false, info
+		}
+		per = append(per, cs)
+	}
+	var tuples []cand
+	var rec func(i int, cur cand)
+	rec = func(i int, cur cand) {
+		if len(tuples) >= 600 {
+			return
+		}
+		if i == len(per) {
+			tuples = append(tuples, cand{append([]*Term{}, cur.lits...), append([]string{}, cur.args...)})
+			return
+		}
+		for _, c := range per[i] {
+			rec(i+1, cand{append(cur.lits, c.lits...), append(cur.args, c.args...)})
+		}
+	}
+	rec(0, cand{})
+	rt := fn.Signature.Results()
+	var prints []string
+	for i := 0; i < rt.Len(); i++ {
+		t := rt.At(i).Type()
+		switch {
+		case kindOf(t) == KInt:
+			_, sg := intInfo(t)
+			if sg {
+				prints = append(prints, fmt.Sprintf("fmt.Sprint(int64(r%d))", i))
+			} else {
+				prints = append(prints, fmt.Sprintf("fmt.Sprint(uint64(r%d))", i))
+			}
+		case kindOf(t) == KBool:
+			prints = append(prints, fmt.Sprintf("fmt.Sprint(r%d)", i))
+		case isBigPtr(t):
+			is.paths["math/big"] = "big"
+			prints = append(prints, fmt.Sprintf("func() string { if r%d == nil { return \"nil\" }; return (*big.Int)(r%d).String() }()", i, i))
+		default:
+			return false, info
+		}
+	}
+	if rt.Len() == 0 {
+		return false, info
+	}
+	var rs []string
+	for i := 0; i < rt.Len(); i++ {
+		rs = append(rs, fmt.Sprintf("r%d", i))
+	}
+	var src strings.Builder
+	fmt.Fprintf(&src, "package %s\n\nimport (\n\t\"fmt\"\n\t\"strings\"\n\t\"testing\"\n", fn.Pkg.Pkg.Name())
+	for p, n := range is.paths {
+		fmt.Fprintf(&src, "\t%s %q\n", n, p)
+	}
+	fmt.Fprintf(&src, ")\n\nfunc TestVerifSearch(t *testing.T) {\n")
+	for k, tu := range tuples {
+		fmt.Fprintf(&src, "\tfunc() {\n\t\tdefer func() { if e := recover(); e != nil { fmt.Println(\"VERIF-SEARCH|%d|PANIC\") } }()\n\t\t%s := %s(%s)\n\t\tfmt.Println(\"VERIF-SEARCH|%d|\" + strings.Join([]string{%s}, \"|\"))\n\t}()\n", k, strings.Join(rs, ", "), fn.Name(), strings.Join(tu.args, ", "), k, strings.Join(prints, ", "))
+	}
+	fmt.Fprintf(&src, "}\n")
+	pkgDir := strings.TrimPrefix(strings.TrimPrefix(fn.Pkg.Pkg.Path(), strings.TrimSuffix(modPrefix, "/")), "/")
+	tmp, err := os.MkdirTemp("", "vsearch")
+	if err != nil {
+		return false, info
+	}
+	defer os.RemoveAll(tmp)
+	tf := filepath.Join(tmp, "zz_verif_search_test.go")
+	os.WriteFile(tf, []byte(src.String()), 0o644)
+	ov := map[string]map[string]string{"Replace": {filepath.Join(repo, pkgDir, "zz_verif_search_test.go"): tf}}
+	ob, _ := json.Marshal(ov)
+	ovf := filepath.Join(tmp, "ov.json")
+	os.WriteFile(ovf, ob, 0o644)
+	ctx, cancel := context.WithTimeout(context.Background(), 240*time.Second)
+	defer cancel()
+	cmd := exec.CommandContext(ctx, "go", "test", "-overlay", ovf, "-vet=off", "-v", "-count=1", "-timeout", "120s", "-run", "^TestVerifSearch$", "./"+pkgDir+"/")
+	cmd.Dir = repo
+	cmd.Env = append(os.Environ(), "GOFLAGS=-mod=mod", "GOPROXY=off")
+	o, _ := cmd.CombinedOutput()
+	tried := 0
+	deadline := time.Now().Add(75 * time.Second)
+	factsTimeoutS = 4
+	defer func() { factsTimeoutS = 30 }()
+	for _, l := range strings.Split(string(o), "\n") {
+		if !strings.HasPrefix(l, "VERIF-SEARCH|") {
+			continue
+		}
+		if time.Now().After(deadline) {
+			info["search_stopped"] = "time budget of the input search used up"
+			break
+		}
+		f := strings.Split(strings.TrimPrefix(l, "VERIF-SEARCH|"), "|")
+		var k int
+		fmt.Sscanf(f[0], "%d", &k)
+		if k < 0 || k >= len(tuples) || len(f) < 2 {
+			continue
+		}
+		tried++
+		call := fmt.Sprintf("%s(%s)", fn.Name(), strings.Join(tuples[k].args, ", "))
+		if f[1] == "PANIC" {
+			info["replay_call"] = call
+			info["replay_verdict"] = "real code panics on this input (found by input search)"
+			info["inputs_tried"] = tried
+			return true, info
+		}
+		inputs := map[string]*Term{}
+		for i, p := range fn.Params {
+			inputs[p.Name()] = tuples[k].lits[i]
+		}
+		if v, detail := evalContractOnFacts(fn, inputs, f[1:]); v {
+			info["replay_call"] = call
+			info["replay_outputs"] = f[1:]
+			info["replay_verdict"] = detail + " (input found by boundary/random search on the real code, not by a solver model)"
+			info["inputs_tried"] = tried
+			return true, info
+		}
+	}
+	info["inputs_tried"] = tried
+	info["search"] = "no falsifying input among the boundary and pseudo-random candidates"
+	return false, info
 }
